@@ -12,7 +12,8 @@ TOL = {"factor_on_krylov_tol_per_step": 10.0, "floor": 1e-9, "hermiticity": 1e-1
 RULE = ("noisy ground-rydberg sequences on emu-sv, 1-4 atoms (thorough: 5): global + retargeted local channel, phases, "
         "DMM, SLM, delays, all waveform kinds; noise = any subset of dephasing, relaxation, depolarizing and 1-2 "
         "effective-noise channels with arbitrary complex 2x2 operators, rates over 3 decades; dt incl. non-dividing; "
-        "krylov_tolerance 1e-6..1e-10; optional initial density matrix (mixed); oracle: Liouvillian assembled by explicit "
+        "krylov_tolerance 1e-6..1e-10; optional initial density matrix (pure / mixed); one case in three judges the SECOND run of "
+        "the same backend object, and a run must leave the configured initial state untouched; oracle: Liouvillian assembled by explicit "
         "kron formulas from Pulser's own collapse-operator definition (HamiltonianData.lindblad_data, re-indexed to "
         "(g,r)), expm chain; compared at every evaluation time: density matrix, occupation, correlation matrix, energy, "
         "second moment, variance, fidelity; validity: Hermitian, trace one, positive semidefinite; non-trivial = >=1 "
@@ -55,7 +56,9 @@ def _cases(draw, n_max=4):
         nm["dephasing_rate"] = 1.0
     return {"seq": seq, "dt": draw(gen.dts()), "ktol": 10.0 ** draw(st.sampled_from([-6, -8, -10])),
             "evals": [draw(gen.eval_time_sets(3)) for _ in range(2)], "nm": nm,
-            "init": draw(st.sampled_from([None, None, "mixed", "pure"])), "seed": draw(st.integers(0, 2**20))}
+            "init": draw(st.sampled_from([None, None, "mixed", "pure"])), "seed": draw(st.integers(0, 2**20)),
+            # history: the same backend object is run a second time and the second run's results are the ones judged
+            "rerun": draw(st.integers(0, 2)) == 0}
 
 
 def strategy(tier):
@@ -138,7 +141,14 @@ def check_case(case) -> Result:
         return dense.Reference("rydberg", qids, loc, U_of_t, grid, d=2, collapse=collapse, rho0=rho0).run(step)
 
     ref = make_ref()
-    res = cut(SVBackend(seq, config=cfg).run)
+    backend = SVBackend(seq, config=cfg)
+    res = cut(backend.run)
+    if case.get("rerun"):
+        res = cut(backend.run)
+        r.label("second_run_of_the_same_backend")
+    if rho0 is not None and np.abs(cfg.initial_state.data.numpy() - rho0).max() > 1e-14:
+        r.fail("run_modified_the_configured_initial_state", f"max change {np.abs(cfg.initial_state.data.numpy() - rho0).max():.3e}; "
+               f"trace now {np.trace(cfg.initial_state.data.numpy()).real:.6f}")
 
     nsteps = len(grid) - 1
     tol = TOL["factor_on_krylov_tol_per_step"] * case["ktol"] * nsteps + TOL["floor"]
